@@ -85,7 +85,10 @@ returned an error in a way the unchanged library does not support in general eit
 receive after a read error; call `Streaming.Garble` again after it failed; `Mul` again after a
 `Mul` that failed on a size disagreement plus a read error). A check that demanded those was
 built once (C11) and raised an alarm on the unchanged tree at its first run; it was withdrawn
-(section 7). Their metas carry `not_caught` and `bin/seeded-sweep` skips them.
+(section 7). Their metas carry `not_caught` and `bin/seeded-sweep` skips them. One change (C05-m)
+is `superseded`: the `fix:` 102384e removed the defect it built on, so its patch has nothing left to
+break and no longer applies; ten patches around `Conn.Fill` were rebased by hand onto the `fix:`
+a20f524 (originals kept as `patch.orig-before-a20f524.diff`).
 The eleventh wave: eleven caught at once (transport capacities 0, 1 and 16 bytes, fragmenting
 reads, second runs and sessions whose results are judged only after everything else has
 happened were all there), three after an extension (a caller that edits what it was given, a
@@ -127,6 +130,10 @@ out += '''| change | property | what was changed | needs | clause that fires | m
 '''
 for m in rows:
     miss = ('yes: ' + m.get('strengthening', '')) if m['initially_missed'] else ('no' + (' (' + m['strengthening'] + ')' if m.get('strengthening') else ''))
+    if m.get('rebased'):
+        miss += ' [patch rebased by hand onto the Conn.Fill fix a20f524; still caught]'
+    if m.get('superseded'):
+        miss += ' [superseded: ' + m['superseded'] + ']' 
     out += '| %s | %s | %s | %s | %s | %s |\n' % (m['name'], m['property'], m['change'].replace('|', '/'), m['needs_to_manifest'].replace('|', '/'), m['clause'], miss)
 out += '''
 What the misses taught (kept as rules for the workloads):
